@@ -7,6 +7,8 @@ hook_commits = subprocess.run(['git','-C','/repo','log','--format=%H %s'],captur
 hooks = [l.split()[0] for l in hook_commits if 'verif hook' in l]
 
 LEVEL = {
+ 'C01': ("proof", "Partial: the premises of the convergence argument are proved, its composition is not. Machine-checked for all states, requests and flag sets: (1) the joiner's snapshot — SESSION_STATE's participants, entities (owner, flag, latest pose) and components, VIKJA_STATE's actions and ODAL_STATE's instances enumerate exactly the stored sets (sound and complete, inductive invariants with a ghost position map); (2) for every mutating handler behaviour the exact state change over the whole view and the exact relayed payload and recipients, so that applying the relay to a view equal to the old state gives the new state; (3) applicability: added ids are fresh, deleted/updated things exist. The induction over histories is a pen-and-paper step (DESIGN.md). One step lemma fails and is a known finding (D13: a new subscriber is told nothing about existing components), replayed on the real code by a bounded test.", "§10 C01"),
+ 'C03': ("proof", "Partial: the per-request sufficient condition for isolation is proved, the two-run noninterference statement itself is not expressible. Every session-scoped handler's frame obligation confines its writes to objects reached from the connection's own currentSession/currentParticipant (or its module's state, proved to be re-bound to the joined session's entry on every Init); every relay goes through Broadcast/BroadcastTo of that same session (recipient set = its members, proved under C02/C13); every request of a connection that is not joined returns an error, changes nothing and sends nothing; the fields holding a session's maps and generators are written only by the constructors (immutable obligations over every function of models, websocket and modules), so sessions created separately never share them.", "§10 C03"),
  'C02': ("proof", "Every accepted behaviour of every mutating handler is proved to emit exactly its declared, ordered event list (one response, one abstract Broadcast with the declared payload, or nothing for refusals) for all states satisfying the representation invariant, all decoded requests and all flag sets; Session.Broadcast's own loop is proved to deliver exactly once to every other member and never to the sender (ghost delivery counters, inductive invariant over the visited-key set).", "§10 C02"),
  'C04': ("proof", "Behaviours of every request handler enumerate the protocol table (complete and disjoint, proved); each is proved to send exactly one response echoing the request id with the named code, to leave the world unchanged when refusing, and to return an error without touching any session when not joined.", "§10 C04"),
  'C05': ("proof", "Foreign delete / pose update behaviours are proved to refuse (or drop) and leave the world unchanged; the owner field is set only at creation and participant ids are strictly increasing (C10).", "§10 C05"),
